@@ -1,8 +1,9 @@
 #!/usr/bin/env python3
 """Merges libFuzzer campaign statistics into /verif/evidence/<ID>.json (thorough tier)."""
 import sys, json, re, os
+ROOT = os.environ.get("VERIF_ROOT", "/verif")
 pid, mode = sys.argv[1], sys.argv[2]
-p = f"/verif/evidence/{pid}.json"
+p = f"{ROOT}/evidence/{pid}.json"
 ev = json.load(open(p))
 cov = ev["coverage"]
 if mode == "skipped":
@@ -10,11 +11,11 @@ if mode == "skipped":
 else:
     out = []
     for t in sys.argv[3:]:
-        log = open(f"/verif/target/fuzz-{pid}-{t}.log", errors="replace").read()
+        log = open(f"{ROOT}/target/fuzz-{pid}-{t}.log", errors="replace").read()
         g = lambda k: (re.findall(rf"stat::{k}:\s+(\d+)", log) or ["0"])[-1]
         runs = int(g("number_of_executed_units")); new_units = int(g("new_units_added"))
         covm = re.findall(r"cov: (\d+) ft: (\d+) corp: (\d+)", log)
-        rc = open(f"/verif/target/fuzz-{pid}-{t}.rc").read().strip() if os.path.exists(f"/verif/target/fuzz-{pid}-{t}.rc") else "?"
+        rc = open(f"{ROOT}/target/fuzz-{pid}-{t}.rc").read().strip() if os.path.exists(f"{ROOT}/target/fuzz-{pid}-{t}.rc") else "?"
         out.append({"target": t, "runs": runs, "new_units": new_units, "edges": int(covm[-1][0]) if covm else 0, "features": int(covm[-1][1]) if covm else 0, "corpus": int(covm[-1][2]) if covm else 0, "exit": rc,
                     "oracle": f"in-target semantic oracle for {pid} (KFUZZ_PROP={pid}); seeds: /verif/corpus/{t}"})
         cov["evaluations"] += runs
